@@ -29,7 +29,7 @@ func newExec(w *World, ss *SpecSet, fn *ssa.Function, spec *FuncSpec) *Exec {
 		heapInfos: map[string]*heapInfo{}, obCount: map[string]int{}, assumed: map[string]bool{},
 		modset: map[string][]modLoc{}, closureIDs: map[string]*Closure{}, cardDone: map[string]bool{},
 		typeTags: map[string]int{}, boxAx: map[string]bool{}, usedSpecs: map[string]*FuncSpec{},
-		wsCache: map[*ssa.Function]map[string]bool{}, globalByRef: map[string]*ssa.Global{}}
+		wsCache: map[*ssa.Function]map[string]bool{}, globalByRef: map[string]*ssa.Global{}, epochFrames: map[int]*epochFrame{}}
 	return e
 }
 
@@ -87,6 +87,7 @@ func verifyFunction(w *World, ss *SpecSet, fn *ssa.Function, spec *FuncSpec) (re
 	// modifies
 	menv := e.specEnv(fr, st, nil)
 	menv.vars = map[string]Val{}
+	menv.ownFrame = true
 	for k, v := range fr.entryParams {
 		menv.vars[k] = v
 	}
